@@ -445,3 +445,124 @@ Lemma markers_example :
   exists f, forge_bp_with b 100 (durs b) = Ok f /\
     fm1 f = repeat false 3 ++ repeat true 17 /\ fm2 f = repeat false 20.
 Proof. intro b. eexists. split; [vm_compute; reflexivity|]. split; vm_compute; reflexivity. Qed.
+
+(* ---------- C03: the closed form of the nearest-sample index is numpy's argmin ---------- *)
+
+(* first index of the minimum: strictly better than everything to its left, no worse than anything to its right *)
+Lemma argmin_aux_first (g : nat -> Q) n : forall len bi i,
+  (forall k, (k < n)%nat -> g n < g k) ->
+  (forall k, (n < k < i + len)%nat -> g n <= g k) ->
+  (bi < i)%nat ->
+  ((bi = n) \/ (i <= n < i + len)%nat) ->
+  argmin_aux bi (g bi) i (map g (List.seq i len)) = n.
+Proof.
+  induction len as [|len IH]; intros bi i Hlt Hle Hbi Hn; simpl.
+  - destruct Hn as [-> | Hn]; [reflexivity | lia].
+  - destruct (Qlt_le_dec (g i) (g bi)) as [Hl | Hl].
+    + apply IH; auto.
+      * intros k Hk. apply Hle. lia.
+      * destruct Hn as [-> | Hn].
+        -- exfalso. assert (g n <= g i) by (apply Hle; lia). lra.
+        -- destruct (Nat.eq_dec i n); [left; assumption | right; lia].
+    + apply IH; auto.
+      * intros k Hk. apply Hle. lia.
+      * destruct Hn as [-> | Hn]; [left; reflexivity|].
+        destruct (Nat.eq_dec i n) as [-> | Hne]; [| right; lia].
+        exfalso. assert (g n < g bi) by (apply Hlt; lia). lra.
+Qed.
+
+Lemma argmin_first (g : nat -> Q) N n :
+  (n < N)%nat ->
+  (forall k, (k < n)%nat -> g n < g k) ->
+  (forall k, (n < k < N)%nat -> g n <= g k) ->
+  argmin (map g (List.seq 0 N)) = n.
+Proof.
+  intros Hn Hlt Hle. destruct N as [|N]; [lia|]. simpl.
+  apply (argmin_aux_first g n N 0%nat 1%nat Hlt); [intros k Hk; apply Hle; lia | lia |].
+  destruct n; [left; reflexivity | right; lia].
+Qed.
+
+Lemma dist_scale SR t a : 0 < SR -> Qabs (a / SR - t) == Qabs (a - t * SR) / SR.
+Proof.
+  intro H. rewrite <- Qabs_scale by exact H.
+  assert (a / SR - t == (a - t * SR) / SR) as R by (field; lra).
+  rewrite R. reflexivity.
+Qed.
+
+Lemma dist_lt SR t a b :
+  0 < SR -> Qabs (a - t * SR) < Qabs (b - t * SR) -> Qabs (a / SR - t) < Qabs (b / SR - t).
+Proof.
+  intros H L. rewrite !dist_scale by exact H.
+  apply Qmult_lt_compat_r; [apply Qinv_lt_0_compat; exact H | exact L].
+Qed.
+
+Lemma dist_le SR t a b :
+  0 < SR -> Qabs (a - t * SR) <= Qabs (b - t * SR) -> Qabs (a / SR - t) <= Qabs (b / SR - t).
+Proof.
+  intros H L. rewrite !dist_scale by exact H.
+  apply Qmult_le_compat_r; [exact L | apply Qlt_le_weak, Qinv_lt_0_compat; exact H].
+Qed.
+
+Lemma Qabs_cases a : (0 <= a /\ Qabs a == a) \/ (a <= 0 /\ Qabs a == - a).
+Proof.
+  destruct (Qlt_le_dec a 0) as [L|L].
+  - right. split; [lra | apply Qabs_neg; lra].
+  - left. split; [lra | apply Qabs_pos; lra].
+Qed.
+
+Ltac qabs_lra :=
+  match goal with
+  | |- _ (Qabs ?A) (Qabs ?B) =>
+      destruct (Qabs_cases A) as [[? ?]|[? ?]], (Qabs_cases B) as [[? ?]|[? ?]]; lra
+  end.
+
+Lemma Zle_Q1 a b : (a + 1 <= b)%Z -> inject_Z a + 1 <= inject_Z b.
+Proof. intro H. rewrite Zle_Qle, inject_Z_plus1 in H. exact H. Qed.
+
+Lemma nearest_fast_argmin : forall (N : nat) SR t,
+  0 < SR -> (0 < N)%nat -> nearest_fast (Z.of_nat N) SR t = Z.of_nat (nearest N SR t).
+Proof.
+  intros N SR t HSR HN.
+  assert (exists n, (n < N)%nat /\ nearest_fast (Z.of_nat N) SR t = Z.of_nat n /\
+     (forall k, (k < n)%nat ->
+        Qabs (inject_Z (Z.of_nat n) - t * SR) < Qabs (inject_Z (Z.of_nat k) - t * SR)) /\
+     (forall k, (n < k < N)%nat ->
+        Qabs (inject_Z (Z.of_nat n) - t * SR) <= Qabs (inject_Z (Z.of_nat k) - t * SR)))
+    as (n & Hn & -> & Hlt & Hle).
+  2: { f_equal. symmetry. unfold nearest. apply argmin_first; [exact Hn | |]; intros k Hk; cbv beta.
+       - apply dist_lt; auto.
+       - apply dist_le; auto. }
+  unfold nearest_fast. cbv zeta. remember (t * SR) as x eqn:Hx. clear Hx.
+  destruct (Qle_bool x 0) eqn:E0.
+  - apply Qle_bool_iff in E0. exists 0%nat. split; [lia|]. split; [reflexivity|].
+    split; [intros; lia|]. intros k Hk. change (inject_Z (Z.of_nat 0)) with 0.
+    assert (0 <= inject_Z (Z.of_nat k)) as P by (change 0 with (inject_Z 0); rewrite <- Zle_Qle; lia).
+    qabs_lra.
+  - apply Qle_bool_false in E0. destruct (floor_bounds x) as [F1 F2].
+    remember (Qfloor x) as k0 eqn:Hk0. clear Hk0.
+    assert (0 <= k0)%Z as K0.
+    { assert (inject_Z 0 < inject_Z (k0 + 1)) as A
+        by (rewrite inject_Z_plus1; change (inject_Z 0) with 0; lra).
+      apply inject_Z_lt in A. lia. }
+    remember (Z.of_nat N - 1)%Z as M eqn:HM.
+    destruct (Qle_bool (x - inject_Z k0) (1#2)) eqn:E1.
+    + apply Qle_bool_iff in E1. destruct (Z_le_gt_dec k0 M) as [L|L].
+      * exists (Z.to_nat k0). rewrite Z2Nat.id by lia. split; [lia|]. split; [lia|].
+        split; intros k Hk.
+        -- assert (Z.of_nat k + 1 <= k0)%Z as P by lia. apply Zle_Q1 in P. qabs_lra.
+        -- assert (k0 + 1 <= Z.of_nat k)%Z as P by lia. apply Zle_Q1 in P. qabs_lra.
+      * exists (Z.to_nat M). rewrite Z2Nat.id by lia. split; [lia|]. split; [lia|].
+        split; intros k Hk; [|lia].
+        assert (Z.of_nat k + 1 <= M)%Z as P by lia. assert (M + 1 <= k0)%Z as P' by lia.
+        apply Zle_Q1 in P, P'. qabs_lra.
+    + apply Qle_bool_false in E1. pose proof (inject_Z_plus1 k0) as IZ.
+      destruct (Z_le_gt_dec (k0 + 1) M) as [L|L].
+      * exists (Z.to_nat (k0 + 1)). rewrite Z2Nat.id by lia. split; [lia|]. split; [lia|].
+        split; intros k Hk.
+        -- assert (Z.of_nat k + 1 <= k0 + 1)%Z as P by lia. apply Zle_Q1 in P. qabs_lra.
+        -- assert ((k0 + 1) + 1 <= Z.of_nat k)%Z as P by lia. apply Zle_Q1 in P. qabs_lra.
+      * exists (Z.to_nat M). rewrite Z2Nat.id by lia. split; [lia|]. split; [lia|].
+        split; intros k Hk; [|lia].
+        assert (Z.of_nat k + 1 <= M)%Z as P by lia. assert (M <= k0)%Z as P' by lia.
+        rewrite Zle_Qle in P'. apply Zle_Q1 in P. qabs_lra.
+Qed.
